@@ -29,7 +29,7 @@ func init() {
 				"reported as information.",
 			NotCovered: "that (*dns.Msg).Unpack is a function of its argument only (trusted); semantics of the " +
 				"third-party DNSCrypt and HTTP libraries' own buffers.",
-			Rules: map[string]string{"C06-R22": "a cache stores a clone, never the message that is then finished for the client and disposed of into the pools (shared with C07-R4)", "C06-R21": "every field of a record taken from the cloner's pools is assigned on every path (shared with C07-R1): a recycled record does not keep parts of the message it was used for before", "C06-R19": "the forwarding handler writes only a response that came without an error (table shared with C17-R1): a reply that failed validation (another query's ID or question) is never passed on; R20: the cloner fills the sections of a pooled message by appending to their zero-length prefix, never by re-slicing them to the source's length (a pooled message may have no room: the FORMERR reply to a query without a question was disposed with a nil Question)", "C06-R18": "the bind-to-device writer arms the socket with the deadline of every queued response before it writes it, unconditionally: a response whose deadline has passed (its sender has already given up and reused the buffer) fails instead of going out with another response's bytes", "C06-R17": "an OPT record taken from the cloner's pool starts without options (shared with C08-R6): a constructed answer carries no EDNS option of the message the record served before", "C06-R15": "packWithPrefix returns the bytes that PackBuffer returned: every returned slice got the packed message copied in behind the two-byte prefix (PackBuffer may allocate a new array although the result would have fitted, so the caller's buffer is not the message)", "C06-R16": "the plain-DNS server keeps separate pools for UDP and TCP request buffers (the TCP path shrinks pooled slices to the message length, the UDP path reads into the slice as it is)", "C06-R14": "pooled per-request state is fully re-initialised before use (ecscache cacheRequest; shared with C07-R1)", "C06-R13": "hashprefix.setInCache stores clones: the message handed to the first requester is disposed of after the write and must not be the cached one (shared with C07-R4)", "C06-R11": "ecscache.writeUpstreamResponse stores the answer before it adds this requester's client-subnet option (shared with C07-R4)", "C06-R12": "request-path code does not write into record templates shared by all requests of a server group (shared with C07-R6)", "C06-R10": "the simple cache keeps its own copy of a response; the written message goes back to the pools and is overwritten by later answers (shared with C07-R4)", "C06-R9": "a pooled buffer that is held in a field of an object outliving the call is returned by test-and-clear (one Put per object, however often the function runs for it)", "C06-R8": "cached answers are re-initialised from the current request (shared with C12-R11)", "C06-RC": "class rules (error chains, shadowed results, character classes, crossed arguments, pool constructors, array pools, loop completeness, loop-carried buffers, replacing setters, complete clones, Grow arithmetic, pooled-buffer escape, sorted searches, fresh decode targets, per-iteration objects, whole-message copies, codec guards) over the packages this property rests on", "C06-R7": "deep-copy discipline of the record constructors and the cloner (shared with C07-R5)", "C06-R6": "pooled per-request objects (filtering context, request info) are fully re-initialised when taken from the pool", "C06-R5": "a response goes back to the message pools only from writers after which nothing reads it (dispose gates, shared with C07-R3)",
+			Rules: map[string]string{"C06-R23": "the three functions that rebuild a stored message for another request (both caches' fromCacheItem, CloneForReq) leave the question section to SetReply / SetRcode: the answer never carries the question as an earlier client spelled it", "C06-R22": "a cache stores a clone, never the message that is then finished for the client and disposed of into the pools (shared with C07-R4)", "C06-R21": "every field of a record taken from the cloner's pools is assigned on every path (shared with C07-R1): a recycled record does not keep parts of the message it was used for before", "C06-R19": "the forwarding handler writes only a response that came without an error (table shared with C17-R1): a reply that failed validation (another query's ID or question) is never passed on; R20: the cloner fills the sections of a pooled message by appending to their zero-length prefix, never by re-slicing them to the source's length (a pooled message may have no room: the FORMERR reply to a query without a question was disposed with a nil Question)", "C06-R18": "the bind-to-device writer arms the socket with the deadline of every queued response before it writes it, unconditionally: a response whose deadline has passed (its sender has already given up and reused the buffer) fails instead of going out with another response's bytes", "C06-R17": "an OPT record taken from the cloner's pool starts without options (shared with C08-R6): a constructed answer carries no EDNS option of the message the record served before", "C06-R15": "packWithPrefix returns the bytes that PackBuffer returned: every returned slice got the packed message copied in behind the two-byte prefix (PackBuffer may allocate a new array although the result would have fitted, so the caller's buffer is not the message)", "C06-R16": "the plain-DNS server keeps separate pools for UDP and TCP request buffers (the TCP path shrinks pooled slices to the message length, the UDP path reads into the slice as it is)", "C06-R14": "pooled per-request state is fully re-initialised before use (ecscache cacheRequest; shared with C07-R1)", "C06-R13": "hashprefix.setInCache stores clones: the message handed to the first requester is disposed of after the write and must not be the cached one (shared with C07-R4)", "C06-R11": "ecscache.writeUpstreamResponse stores the answer before it adds this requester's client-subnet option (shared with C07-R4)", "C06-R12": "request-path code does not write into record templates shared by all requests of a server group (shared with C07-R6)", "C06-R10": "the simple cache keeps its own copy of a response; the written message goes back to the pools and is overwritten by later answers (shared with C07-R4)", "C06-R9": "a pooled buffer that is held in a field of an object outliving the call is returned by test-and-clear (one Put per object, however often the function runs for it)", "C06-R8": "cached answers are re-initialised from the current request (shared with C12-R11)", "C06-RC": "class rules (error chains, shadowed results, character classes, crossed arguments, pool constructors, array pools, loop completeness, loop-carried buffers, replacing setters, complete clones, Grow arithmetic, pooled-buffer escape, sorted searches, fresh decode targets, per-iteration objects, whole-message copies, codec guards) over the packages this property rests on", "C06-R7": "deep-copy discipline of the record constructors and the cloner (shared with C07-R5)", "C06-R6": "pooled per-request objects (filtering context, request info) are fully re-initialised when taken from the pool", "C06-R5": "a response goes back to the message pools only from writers after which nothing reads it (dispose gates, shared with C07-R3)",
 				"C06-R1": "length provenance of every (*dns.Msg).Unpack argument: Bounded | FullyRead | Fresh on all paths",
 				"C06-R3": "buffer-pool wiring: a pool field of a reader / writer is set from the server's pool field of the same name (request buffers and response buffers never share a pool)",
 				"C06-R2": "no use of a pooled receive buffer after Pool.Put on any path; Put after hand-over to a worker only inside the worker",
@@ -591,6 +591,10 @@ func (a *c06) callResult(c *ssa.Call, i int, out *[]c06leaf) {
 }
 
 func runC06(c *an.Ctx) {
+	c.Floor("C06-R23", 3)
+	if n := c06QuestionFromRequest(c, "C06-R23"); n < 3 {
+		c.Und("C06-R23", "rebuild functions", 0, "%d of 3 functions found", n)
+	}
 	c.Floor("C06-R22", 2)
 	c.Borrow("C06-R22", runC07, func(o an.Obligation) bool { return o.Rule == "C07-R4" })
 	c.Floor("C06-R21", 10)
